@@ -168,6 +168,31 @@ class _Canon2(ast.NodeTransformer):
         return node
 
     def visit_Assign(self, node: ast.Assign):
+        # `a, b, c = (F(x) for x in (p, q, r))` (also a list comprehension / list display) is `a = F(p); b = F(q); c = F(r)`
+        if len(node.targets) == 1 and isinstance(node.targets[0], (ast.Tuple, ast.List)) and isinstance(node.value, (ast.GeneratorExp, ast.ListComp)) \
+                and len(node.value.generators) == 1 and not node.value.generators[0].ifs and not node.value.generators[0].is_async \
+                and isinstance(node.value.generators[0].target, ast.Name) and isinstance(node.value.generators[0].iter, (ast.Tuple, ast.List)) \
+                and len(node.value.generators[0].iter.elts) == len(node.targets[0].elts) \
+                and not any(isinstance(e, ast.Starred) for e in node.targets[0].elts + node.value.generators[0].iter.elts):
+            import copy as _c
+
+            var = node.value.generators[0].target.id
+
+            class _Sub(ast.NodeTransformer):
+                def __init__(self, repl):
+                    self.repl = repl
+
+                def visit_Name(self, n):
+                    return _c.deepcopy(self.repl) if n.id == var and isinstance(n.ctx, ast.Load) else n
+
+            out = []
+            for tgt, src in zip(node.targets[0].elts, node.value.generators[0].iter.elts):
+                val = _Sub(src).visit(_c.deepcopy(node.value.elt))
+                st = ast.copy_location(ast.Assign(targets=[_c.deepcopy(tgt)], value=val), node)
+                ast.fix_missing_locations(st)
+                r_ = self.visit_Assign(st)
+                out += r_ if isinstance(r_, list) else [r_]
+            return out
         self.generic_visit(node)
         if isinstance(node.value, ast.IfExp) and len(node.targets) == 1 and isinstance(node.targets[0], (ast.Name, ast.Attribute)):
             import copy as _c
@@ -175,6 +200,26 @@ class _Canon2(ast.NodeTransformer):
             a = ast.copy_location(ast.Assign(targets=[_c.deepcopy(node.targets[0])], value=node.value.body), node)
             b = ast.copy_location(ast.Assign(targets=[_c.deepcopy(node.targets[0])], value=node.value.orelse), node)
             return ast.copy_location(ast.If(test=node.value.test, body=[a], orelse=[b]), node)
+        return node
+
+    def visit_With(self, node: ast.With):
+        # `with ExitStack() as s: s.callback(f, *a); BODY` is `try: BODY finally: f(*a)` (callbacks run last-in first-out)
+        self.generic_visit(node)
+        if len(node.items) == 1 and isinstance(node.items[0].context_expr, ast.Call) and not node.items[0].context_expr.args \
+                and (ast.unparse(node.items[0].context_expr.func)).split(".")[-1] == "ExitStack" and isinstance(node.items[0].optional_vars, ast.Name):
+            nm = node.items[0].optional_vars.id
+            cbs = []
+            rest = list(node.body)
+            while rest and isinstance(rest[0], ast.Expr) and isinstance(rest[0].value, ast.Call) and isinstance(rest[0].value.func, ast.Attribute) \
+                    and rest[0].value.func.attr == "callback" and isinstance(rest[0].value.func.value, ast.Name) and rest[0].value.func.value.id == nm \
+                    and rest[0].value.args:
+                c = rest[0].value
+                cbs.append(ast.copy_location(ast.Expr(value=ast.Call(func=c.args[0], args=list(c.args[1:]), keywords=list(c.keywords))), rest[0]))
+                rest = rest[1:]
+            used = any(isinstance(x, ast.Name) and x.id == nm for st in rest for x in ast.walk(st))
+            if cbs and rest and not used:
+                t = ast.Try(body=rest, handlers=[], orelse=[], finalbody=list(reversed(cbs)))
+                return ast.copy_location(t, node)
         return node
 
     def visit_Expr(self, node: ast.Expr):
